@@ -277,15 +277,20 @@ class GWCSAPIMixin(BaseHighLevelWCS, BaseLowLevelWCS):
 
     def _sanitize_pixel_inputs(self, *pixel_arrays):
         pixels = []
+        if self.input_frame is not None:
+            units = self.input_frame.unit
+        else:
+            # the input frame is known by name only: pixel axes are in pixels
+            units = (u.pix,) * len(pixel_arrays)
         if self.forward_transform.uses_quantity:
             for i, pixel in enumerate(pixel_arrays):
                 if not isinstance(pixel, u.Quantity):
-                    pixel = u.Quantity(value=pixel, unit=self.input_frame.unit[i])
+                    pixel = u.Quantity(value=pixel, unit=units[i])
                 pixels.append(pixel)
         else:
             for i, pixel in enumerate(pixel_arrays):
                 if isinstance(pixel, u.Quantity):
-                    if pixel.unit != self.input_frame.unit[i]:
+                    if pixel.unit != units[i]:
                         raise ValueError('Quantity input does not match the '
                                          'input_frame unit.')
                     pixel = pixel.value
